@@ -220,15 +220,17 @@ def run_driver(ctx, binary, cases, env=None, timeout=900):
 run_driver.n = 0
 
 
+SITE_MSG = {"S1": "byte index", "S2": "is_char_boundary", "S3": "byte index", "S4": "ToStrError", "S5": "index out of bounds",
+            "S6": "subtract with overflow", "S7": "byte index"}
+
+
 def site_of_panic(p):
-    """map a recorded panic location to a site id (file + the site's line range is not used: the
-    file identifies the site; hyper_client.rs holds S4 and S5, told apart by the message)"""
+    """map a recorded panic (location + message) to the F7 site it belongs to, or None for a panic
+    that is not one of the seven: the source file AND the kind of panic must both match"""
     loc = p.get("loc", "")
     msg = p.get("msg", "")
     for sid, f in SITE_FILES.items():
-        if f in loc:
-            if sid in ("S4", "S5"):
-                return "S4" if "ToStrError" in msg or "unwrap()" in msg else ("S5" if "index out of bounds" in msg else None)
+        if f in loc and SITE_MSG[sid] in msg:
             return sid
     return None
 
@@ -504,6 +506,20 @@ def run(ctx):
             want_panic = bool(mod[i])
             if r["panicked"] != want_panic:
                 disagreements.append({"case": {"op": "resp", "reply_b64": c["reply_b64"][:400], "pieces": c["pieces"]}, "model": "panic" if want_panic else "ok", "impl": r})
+            elif not want_panic and charset_of(m["ct"]) == "utf-16" and c["kind"] == "json" and not m.get("timing"):
+                # repaired decoder: units = pair_exact(concat frames) (C13_utf16_fixed_frame_independent);
+                # the deserialiser then sees that text
+                whole = b"".join(m["frames"])
+                text = whole[:len(whole) // 2 * 2].decode("utf-16-le", errors="replace")
+                try:
+                    json.loads(text)
+                    exp = "ok"
+                except Exception:
+                    exp = "err"
+                got = unb64(r["result_b64"]).decode("utf-8", "replace")[:3].rstrip(":")
+                if got != exp and not (c["via"] == "get" and m.get("status_not_ok")):
+                    disagreements.append({"case": {"op": "resp.decode", "frames_hex": [f.hex() for f in m["frames"]][:6], "content_type": m["ct"].decode("latin-1")},
+                                          "model": {"decoded": text[:60], "deserialises": exp}, "impl": unb64(r["result_b64"]).decode("utf-8", "replace")[:120]})
             if r["panicked"]:
                 n_panics += 1
                 known_or_fail({"op": "resp", "reply_b64": c["reply_b64"] if len(c["reply_b64"]) < 3000 else c["reply_b64"][:3000] + "...", "content_type": (m["ct"] or b"").decode("latin-1"),
@@ -709,6 +725,12 @@ def e2e_leg(ctx, form, MAXM, MAXE, disagreements, failures, dist):
                 scs.append(e2e.scenario("caller cmdline w%d shift%d" % (w, shift),
                                         [e2e.conn([get, get], audit=e2e.audit(e2e.IMDS, uid=0, pid=pid))]))
                 metas.append({"kind": "cmdline"})
+        # callers whose whole command line is multi-byte: a cut at ANY byte offset of anything derived
+        # from it (log line, claims, summary, status) falls inside a character for some of these
+        for i, arg in enumerate(["é" * 2600, "x" + "é" * 2600, "€" * 1800, "y" + "€" * 1800, "𝄞" * 1300, "zz" + "𝄞" * 1300]):
+            pid = hostile_process(arg)
+            scs.append(e2e.scenario("all multi-byte caller %d" % i, [e2e.conn([get, get], audit=e2e.audit(e2e.WIRESERVER, uid=0, pid=pid))]))
+            metas.append({"kind": "cmdline"})
         # (b) the same caller denied by an enforce rule: errorDetails = "Block unauthorized request: <claims json>"
         deny = {"defaultAccess": "deny", "mode": "enforce", "id": "c13"}
         # The cut of the details (S2) and the cut of the serialised summary (S1) both fall into the run of
@@ -727,6 +749,11 @@ def e2e_leg(ctx, form, MAXM, MAXE, disagreements, failures, dist):
             r = e2e.http_request("GET", "/machine?comp=goalstate", [("x-ms-version", "2012-11-30"), ("x-custom", hv), ("x-custom", "2")])
             scs.append(e2e.scenario("header %r" % hv, [e2e.conn([r, get], audit=e2e.audit(e2e.WIRESERVER, uid=0))], key=key))
             metas.append({"kind": "header", "hs": [("x-ms-version", b"2012-11-30"), ("x-custom", hv.encode("latin-1")), ("x-custom", b"2")]})
+        # the provision-state route answers locally; its headers are client controlled
+        for tick in ("\x80", "12345678901234567890123456789012345678901234567890", "-1", "é".encode().decode("latin-1"), " 7 "):
+            r = e2e.http_request("GET", "/provision", [("Metadata", "true"), ("x-ms-azure-time_tick", tick), ("x-ms-azure-notify", "\xff")])
+            scs.append(e2e.scenario("provision tick %r" % tick, [e2e.conn([r, get], audit=e2e.audit(e2e.IMDS, uid=0))]))
+            metas.append({"kind": "provision"})
         big = e2e.http_request("GET", "/" + "u" * 65400, [])
         scs.append(e2e.scenario("64 KiB URL", [e2e.conn([big]), e2e.conn([get], audit=e2e.audit(e2e.IMDS, uid=0))], key=key))
         metas.append({"kind": "url"})
